@@ -87,7 +87,7 @@ MUTATIONS = [
      'desc': 'dual stage: second stage NF not divided by the first stage gain when g1 > 24 dB',
      'edits': [('gnpy/core/elements.py', "            nf_avg = lin2db(db2lin(nf1_avg) + db2lin(nf2_avg - g1))",
                 "            nf_avg = lin2db(db2lin(nf1_avg) + db2lin(nf2_avg - min(g1, 24)))")]},
-    {'id': 'c04-band-upper-edge', 'props': ['C04'], 'tests': 'tests/test_info.py tests/test_amplifier.py',
+    {'id': 'c04-band-upper-edge', 'props': ['C04', 'C07'], 'tests': 'tests/test_info.py tests/test_amplifier.py',
      'desc': 'band filter excludes a channel ending exactly on the upper band edge',
      'edits': [('gnpy/core/info.py', "(frequency + slot_width / 2 <= band['f_max'])", "(frequency + slot_width / 2 < band['f_max'])")]},
     {'id': 'c04-tilt-normalisation', 'props': ['C04'], 'tests': 'tests/test_amplifier.py',
@@ -150,4 +150,20 @@ MUTATIONS = [
      'desc': 'per-channel offset ignored when negative',
      'edits': [('gnpy/core/elements.py', "        target_power_per_channel = per_degree_pch + spectral_info.delta_pdb_per_channel",
                 "        target_power_per_channel = per_degree_pch + abs(spectral_info.delta_pdb_per_channel)")]},
+    {'id': 'c07-multiband-drops-single', 'props': ['C07'], 'tests': 'tests/test_amplifier.py tests/test_info.py',
+     'desc': 'multiband amplifier drops a band that carries one channel only',
+     'edits': [('gnpy/core/elements.py', "            if si:\n                si = amp(si)", "            if si and si.number_of_channels > 1:\n                si = amp(si)")]},
+    {'id': 'c07-filter-first-band-only', 'props': ['C07'], 'tests': 'tests/test_propagation.py',
+     'desc': 'pre-propagation filter keeps the first common band only',
+     'edits': [('gnpy/topology/request.py', "    for band in common_range:\n        temp = demuxed_spectral_information(si, band)",
+                "    for band in common_range[:1]:\n        temp = demuxed_spectral_information(si, band)")]},
+    {'id': 'c07-mux-tx-power', 'props': ['C07'], 'tests': 'tests/test_info.py',
+     'desc': 'band merge takes the transmit power of the right-hand spectrum from its tx_osnr',
+     'edits': [('gnpy/core/info.py', "tx_power=append(self.tx_power, other.tx_power),", "tx_power=append(self.tx_power, other.tx_osnr),")]},
+    {'id': 'c07-label-not-sorted', 'props': ['C07'], 'tests': 'tests/test_info.py',
+     'desc': 'labels are not re-ordered with the frequencies at construction',
+     'edits': [('gnpy/core/info.py', "        self._label = label[indices]", "        self._label = label")]},
+    {'id': 'c07-touching-overlap', 'props': ['C07'], 'tests': 'tests/test_info.py',
+     'desc': 'exactly touching slots are reported as overlapping',
+     'edits': [('gnpy/core/info.py', "self._slot_width[:-1] / 2 > self._frequency[1:]", "self._slot_width[:-1] / 2 >= self._frequency[1:]")]},
 ]
